@@ -85,6 +85,14 @@ class Check:
             n = sum(len(b["instrs"]) for b in f["blocks"])
         self.functions[fname] = {"mode": mode, "ssa_instrs": n}
 
+    def fact(self, name, ok, funcs=(), mode="structure", detail="", key=None, seconds=0.0):
+        """an obligation decided by inspecting the executed SSA / concrete state (not a solver query);
+        a failure is a concrete fact about the code and is reported as a violation"""
+        ob = self.add(Ob(name, "unsat" if ok else "violated", seconds, funcs, mode, detail))
+        if not ok:
+            self.violation(key or name, name + (": " + detail if detail else ""), dict(kind="structural", name=name, detail=detail, funcs=list(funcs)))
+        return ob
+
     def note_inconclusive(self, msg):
         self.inconclusive.append(msg)
 
@@ -110,7 +118,9 @@ class Check:
         for o in notok:
             if o.verdict == "sat-unreplayed":
                 self.inconclusive.append("obligation %s: sat, counterexample did not reproduce on the real code (relaxation artefact or encoding problem)" % o.name)
-            elif o.verdict not in ("sat", "violated"):
+            elif o.verdict == "sat":
+                self.inconclusive.append("obligation %s: sat and not settled by a replay" % o.name)
+            elif o.verdict != "violated":
                 self.inconclusive.append("obligation %s: %s" % (o.name, o.verdict))
         solver_time = sum(o.seconds for o in self.obs)
         cov = dict(
